@@ -102,10 +102,10 @@ def run(ctx):
             ops.append(f'sxg.write {exs(ex(ver, uri, b"GET", [], 200, [], b"sig", b"p"))}')
         for slen in [16383, 16384, 16385]:
             ops.append(f'sxg.write {exs(ex(ver, b"https://example.com/", b"GET", [], 200, [], b"s" * slen, b"p"))}')
-        if thorough:
+        if thorough or ver == 'b1':
             for hlen in [524288, 524289]:
                 # one header whose value pads the header block to exactly hlen bytes is found by search on the model side: use sizes around
-                for pad in range(-3, 4):
+                for pad in (range(-3, 4) if thorough else (-20, 0, 20)):
                     rs_ = [(b'X', [b'v' * (hlen - 40 + pad)])]
                     ops.append(f'sxg.write {exs(ex(ver, b"https://example.com/", b"GET", [], 200, rs_, b"sig", b"p"))}')
     for n_, size in [(0, 2), (1, 2), (65535, 2), (65536, 2), (65537, 2), (2**24 - 1, 3), (2**24, 3), (2**24 + 1, 3), (-1, 3), (2**63 - 1, 8), (0, 8), (2**40, 8), (-5, 8)]:
@@ -113,4 +113,7 @@ def run(ctx):
     for _ in range(200):
         ops.append(f'be.enc {rng.getrandbits(rng.randrange(1, 63))} {rng.choice([2, 3, 8])}')
         ops.append(f'be.dec3 {hexs(rbytes(rng, 3))}')
-    ctx.both(ops)
+    g5, m5 = ctx.both(ops)
+    # what the writer accepted at the length boundaries must read back (every version has its own limits: 1b1 only the field widths)
+    bfiles = [x.split(' ')[1] for op, x in zip(ops, g5) if op.startswith('sxg.write ') and x and x.startswith('ok ')]
+    read_stage(ctx, bfiles)
